@@ -336,6 +336,18 @@ func runE2E(c e2eCase) harness.Result {
 	if info != "" {
 		labels = append(labels, info)
 	}
+	if !c.Fluent {
+		// what build does with the AddAll route, by the number of fields
+		if len(c.Fields)%3 == 2 {
+			labels = append(labels, "builder-with-own-defaults")
+		}
+		if len(c.Fields)%5 >= 3 {
+			labels = append(labels, "caller-overwrites-its-slice")
+			if len(c.Fields) > 5 {
+				labels = append(labels, "caller-overwrites-its-slice:>5-fields")
+			}
+		}
+	}
 	if c.Truncate == 0 && len(c.Fields) > 1 {
 		// batching invariance 1: permutation
 		perm := append([]modbus.Field(nil), c.Fields...)
